@@ -9,7 +9,8 @@ import OpenFGAVerif.Model.IterCache
 open OpenFGAVerif OpenFGAVerif.Proto OpenFGAVerif.Model.Iter OpenFGAVerif.Model.IterCache
 
 inductive HEv where
-  | read (f : Nat) (ops : List Op) (fail : Option Nat) (hc : Bool) (cancelAfter : Option Nat)
+  | read (f : Nat) (ops : List Op) (fail : Option Nat) (hc : Nat) (cancelAfter : Option Nat)   -- hc 1: a failing Head
+      -- consumes the failing element; 2: and the failing element is a row that cannot be decoded (it replaces item `fail`)
   | evict (f : Nat)
   | storeMarker (future : Bool)
   | entityMarker (future : Bool) (f : Nat)
@@ -38,7 +39,7 @@ def parseEv (s : String) : Option HEv :=
       let ops ← parseOps ops
       let fail ← optNat fail
       let ca ← optNat ca
-      pure (.read f ops fail (hc == "1") ca)
+      pure (.read f ops fail (hc.toNat?.getD 0) ca)
     | _ => none
   | 'E' :: r => (String.ofList r).toNat?.map HEv.evict
   | ['I', 'p'] => some (.storeMarker false)
@@ -61,16 +62,22 @@ def resTok : Res Nat → String
   | .ok a => toString a
   | .err e _ => errTok e
 
-/-- filters that share entity-level invalidation keys (see the harness: filters 0 and 1 both hang on doc:1#viewer,
-2 and 5 on user:a / doc) -/
-def entityGroup (f g : Nat) : Bool :=
-  f == g || (f ≤ 1 && g ≤ 1) || ((f == 2 || f == 5) && (g == 2 || g == 5))
+/-- the entity-level invalidation keys of each filter (see the harness): 0 = OR doc:1 viewer, 1 = UOT user:a doc,
+2 = UOT user:* doc, 3 = OR group:g1 member, 4 = OR doc:3 viewer.  A marker is one cache entry per key: setting it
+again overwrites the previous time stamp. -/
+def entityKeysOf : Nat → List Nat
+  | 0 => [0]
+  | 1 => [0]
+  | 2 => [1]
+  | 3 => [3]
+  | 4 => [4]
+  | _ => [1, 2]
 
 structure World where
   lens : List Nat
   entries : List (Option (List Nat × Nat))    -- per filter
-  storeMarkers : List Nat := []
-  entityMarkers : List (Nat × Nat) := []       -- (filter the marker was set for, time)
+  storeMarker : Option Nat := none
+  entityMarkers : List (Nat × Nat) := []       -- (key id, time), at most one per key
   serverCancelled : Bool := false
   clock : Nat := 100
 
@@ -78,20 +85,23 @@ def past : Nat := 1
 def future : Nat := 1000000000
 
 def World.markersFor (w : World) (f : Nat) : List Nat :=
-  w.storeMarkers ++ (w.entityMarkers.filter fun (g, _) => entityGroup f g).map (·.2)
+  w.storeMarker.toList ++ (w.entityMarkers.filter fun (k, _) => (entityKeysOf f).contains k).map (·.2)
 
-def scriptOf (n : Nat) (fail : Option Nat) : List (El Nat) :=
+def scriptOf (n : Nat) (fail : Option Nat) (lossy : Bool) : List (El Nat) :=
   let base := (List.range n).map El.item
   match fail with
   | none => base
-  | some p => if p ≤ n then base.take p ++ [El.fail 7] ++ base.drop p else base
+  | some p => if p ≤ n then base.take p ++ [El.fail 7] ++ base.drop (if lossy then p + 1 else p) else base
 
 /-- one event; returns the expected output group -/
 def World.step (maxSize : Nat) (w : World) : HEv → String × World
   | .evict f => ("-", { w with entries := w.entries.set f none })
-  | .storeMarker fu => ("-", { w with storeMarkers := (if fu then future else past) :: w.storeMarkers })
-  | .entityMarker fu f => ("-", { w with entityMarkers := (f, if fu then future else past) :: w.entityMarkers })
-  | .dropMarkers => ("-", { w with storeMarkers := [], entityMarkers := [] })
+  | .storeMarker fu => ("-", { w with storeMarker := some (if fu then future else past) })
+  | .entityMarker fu f =>
+    let ks := entityKeysOf f
+    ("-", { w with entityMarkers := (w.entityMarkers.filter fun (k, _) => !ks.contains k) ++
+                                      ks.map fun k => (k, if fu then future else past) })
+  | .dropMarkers => ("-", { w with storeMarker := none, entityMarkers := [] })
   | .read f ops fail hc ca =>
     let now := w.clock
     let w := { w with clock := w.clock + 10 }
@@ -110,7 +120,7 @@ def World.step (maxSize : Nat) (w : World) : HEv → String × World
         | some 0 => some 0
         | some k => some (k + 1)
       let env : Env := { cancelAt := cancelAt, hit := false, invalidated := c'.invalidAt now, sfShared := false }
-      let s0 := CIter.start (scriptOf n fail) hc maxSize
+      let s0 := CIter.start (scriptOf n fail (hc == 2)) (decide (hc ≥ 1)) maxSize
       let (rs, s1) := s0.runOps ops
       let (written, s2) := s1.stop (fun (x : Nat) => x) env
       -- did the scripted cancellation fire? calls made by Stop's goroutine: Head (if reached) + drain reads
